@@ -140,3 +140,35 @@ def apalache_induction(prop, tier, seed, cov, violations):
     shutil.rmtree(out, ignore_errors=True)
     cov["apalache_inductive_invariant"] = {"module": "spec/apalache/StreamInd.tla", "invariant": "IndInv => CacheSound /\\ ResultOk",
                                            "obligations": res}
+
+
+def apalache_iter_induction(prop, tier, seed, cov, violations):
+    """Thorough tier only: inductive proof (Apalache) for the iterator model of spec/Iter.tla - for any number of
+    next / nth(k) / size_hint calls on one iterator over a list of any length 0..12 and any k, the position stays in
+    0..n, items are yielded in order and none twice, and a consuming call sees exactly the items after the position;
+    plus its negative control (an nth that jumps to the absolute k-th item must break the induction)."""
+    import subprocess, shutil, time
+    if tier != "thorough":
+        return
+    d = os.path.join(vlib.SPEC, "apalache")
+    out = os.path.join(vlib.WORK, "apalache-out-iter")
+    res = {}
+    for name, args, want in (("base", ["--init=Init", "--inv=IndInv", "--length=0", "IterInd.tla"], "NoError"),
+                             ("step", ["--init=IndInit", "--inv=IndInv", "--length=1", "IterInd.tla"], "NoError"),
+                             ("safety", ["--init=IndInit", "--inv=Safety", "--length=0", "IterInd.tla"], "NoError"),
+                             ("negative_control_step", ["--init=IndInit", "--inv=IndInv", "--length=1", "IterIndNeg.tla"], "Error")):
+        t0 = time.time()
+        try:
+            p = subprocess.run(["apalache-mc", "check", "--out-dir=" + out] + args, cwd=d, stdout=subprocess.PIPE,
+                               stderr=subprocess.STDOUT, text=True, timeout=1200)
+            m = [l for l in p.stdout.split("\n") if "The outcome is:" in l]
+            outcome = m[-1].split("The outcome is:")[1].split()[0] if m else "?"
+        except subprocess.TimeoutExpired:
+            outcome = "timeout"
+        res[name] = {"outcome": outcome, "wall_s": round(time.time() - t0, 1)}
+        if outcome != want:
+            shutil.rmtree(out, ignore_errors=True)
+            raise vlib.ToolError("Apalache IterInd %s: outcome %s, expected %s" % (name, outcome, want))
+    shutil.rmtree(out, ignore_errors=True)
+    cov["apalache_inductive_invariant"] = {"module": "spec/apalache/IterInd.tla", "invariant": "IndInv => Safety (position bound, order, no repetition)",
+                                           "obligations": res}
